@@ -4,6 +4,7 @@ import (
 	"fmt"
 	"os"
 	"os/exec"
+	"strconv"
 	"strings"
 	"sync"
 	"sync/atomic"
@@ -53,6 +54,24 @@ func kernelConfigs(prop, tier string) []kernelCfg {
 				kernelCfg{prop, "icmp6-every-send", []string{"-P", "icmp"}, true, []string{"-p", "ipv6-icmp", "--icmpv6-type", "echo-request", "-j", "DROP"}, false, "", ""},
 				kernelCfg{prop, "tcp-syn-every-send", []string{"-P", "tcp", "-p", "8080", "--tcp-method", "syn"}, false, []string{"-p", "tcp", "--dport", "8080", "-j", "DROP"}, false, "", ""},
 				kernelCfg{prop, "udp-multi-ttl3-send", []string{"-P", "udp", "-q", "3", "-Q", "2"}, false, []string{"-p", "udp", "-m", "ttl", "--ttl-eq", "3", "-j", "DROP"}, false, "", ""},
+			)
+		}
+		return cfgs
+	}
+	if prop == "C20" {
+		// the method policy through the real command line against a kernel listener: the destination host counts the TCP
+		// connections that were actually established (Tcp PassiveOpens). cause = "0": none may be; ">=1": the SACK
+		// connection must be
+		cfgs = []kernelCfg{
+			{prop, "cli-syn-opens-no-connection", []string{"-P", "tcp", "-p", "8080", "--tcp-method", "syn", "-q", "2", "-Q", "3"}, false, nil, false, "", "0"},
+			{prop, "cli-syn-verbose-opens-no-connection", []string{"-P", "tcp", "-p", "8080", "--tcp-method", "syn", "-v", "-q", "1", "-Q", "2"}, false, nil, false, "", "0"},
+			{prop, "cli-sack-connects", []string{"-P", "tcp", "-p", "8080", "--tcp-method", "sack", "-q", "1", "-Q", "2"}, false, nil, false, "", ">=1"},
+		}
+		if tier == "thorough" {
+			cfgs = append(cfgs,
+				kernelCfg{prop, "cli-default-method-verbose", []string{"-P", "tcp", "-p", "8080", "-v", "-q", "1", "-Q", "1"}, false, nil, false, "", "0"},
+				kernelCfg{prop, "cli-prefer-sack-connects", []string{"-P", "tcp", "-p", "8080", "--tcp-method", "prefer_sack", "-q", "1", "-Q", "2"}, false, nil, false, "", ">=1"},
+				kernelCfg{prop, "cli-syn-e2e-only", []string{"-P", "tcp", "-p", "8080", "--tcp-method", "syn", "-q", "0", "-Q", "5"}, false, nil, false, "", "0"},
 			)
 		}
 		return cfgs
@@ -335,6 +354,75 @@ func runKernelCfg(tag string, cfg kernelCfg) (out kernelOutcome) {
 	}
 	if !ok {
 		out.inconclusive = "the undisturbed run never showed the lab's chain"
+		return
+	}
+	if cfg.prop == "C20" {
+		passiveOpens := func() int {
+			o, err := run("ip", "netns", "exec", l.ns[l.n+1], "cat", "/proc/net/snmp")
+			if err != nil {
+				return -1
+			}
+			var names, vals []string
+			for _, ln := range strings.Split(o, "\n") {
+				if strings.HasPrefix(ln, "Tcp:") {
+					if names == nil {
+						names = strings.Fields(ln)
+					} else {
+						vals = strings.Fields(ln)
+					}
+				}
+			}
+			for i, n := range names {
+				if n == "PassiveOpens" && i < len(vals) {
+					v, _ := strconv.Atoi(vals[i])
+					return v
+				}
+			}
+			return -1
+		}
+		bad, good := 0, 0
+		var last, lastRaw string
+		for attempt := 0; attempt < 5; attempt++ {
+			before := passiveOpens()
+			o := l.cli(base...)
+			after := passiveOpens()
+			out.counters["cli_invocations"]++
+			if o.err == "WATCHDOG" || before < 0 || after < 0 {
+				out.inconclusive = "CLI watchdog fired / counter unreadable"
+				return
+			}
+			delta := after - before
+			problem := ""
+			switch {
+			case matches(o) != "":
+				problem = "" // the chain is C13's business; only connections are judged here
+				if o.err != "" {
+					problem = "CLI failed: " + o.err
+				}
+			}
+			if problem == "" && cfg.cause == "0" && delta != 0 {
+				problem = fmt.Sprintf("the target's kernel established %d TCP connection(s) during a run with %v", delta, cfg.args)
+			}
+			if problem == "" && cfg.cause == ">=1" && delta < 1 {
+				problem = fmt.Sprintf("no TCP connection was established at the target during a run with %v", cfg.args)
+			}
+			if problem == "" {
+				good++
+				if attempt == 0 || good >= 3 {
+					out.nontrivial = append(out.nontrivial, "kernel/"+cfg.name)
+					out.sample = map[string]any{"case": "C20/kernel/" + cfg.name, "connections_established_at_target": delta}
+					return
+				}
+				continue
+			}
+			bad++
+			last, lastRaw = problem, o.raw
+			if bad >= 3 {
+				out.violations = append(out.violations, [3]string{"cli-connections/" + cfg.name, fmt.Sprintf("%s (%d of %d runs)", last, bad, bad+good), lastRaw})
+				return
+			}
+		}
+		out.inconclusive = fmt.Sprintf("%d mismatching and %d matching runs", bad, good)
 		return
 	}
 	if cfg.prop == "C14" {
